@@ -155,6 +155,20 @@ type BadNested struct {
 	T  string
 }
 
+// Two Go types that a caller maps to ONE wire class name (two versions of a class side by side; a legal
+// registration): the decoder's type map can name only one of them.
+type TwinA struct {
+	Login  string
+	Email  string
+	Active bool
+}
+type TwinB struct {
+	Name string
+	Age  int32
+}
+
+const twinWire = "com.example.verif.Twin"
+
 const nC11Bad = 8
 
 func c11BadValue(ch *Choices) interface{} {
@@ -234,6 +248,7 @@ type c11State struct {
 	lastClass  string              // wire name of the class of the struct value drawn last
 	badKind    int                 // kind of the unrepresentable value the history encoded last (-1: none)
 	nmNil      bool                // the caller constructed the instance without a name map
+	twins      bool                // TwinA and TwinB are registered under one wire class name
 	earlier    []c11Earlier
 	opLog      []string
 	aborted    int
@@ -328,6 +343,18 @@ func (st *c11State) val1() interface{} {
 		// the same message once more (a caller retrying after it changed something)
 		st.o.Probes["the previous value / message used again"]++
 		return st.lastVal
+	}
+	if st.twins && st.ch.Intn(6, "val.twin") == 1 {
+		st.o.Probes["value of one of two Go types that share a wire class name"]++
+		n := int32(st.ch.Intn(50, "twin.n"))
+		switch st.ch.Intn(3, "twin.which") {
+		case 0:
+			return &TwinA{Login: "l", Email: "e", Active: n%2 == 0}
+		case 1:
+			return &TwinB{Name: "n", Age: n}
+		default:
+			return []interface{}{&TwinB{Name: "x", Age: n}, &TwinA{Login: "y"}}
+		}
 	}
 	if st.ch.Intn(10, "val.many") == 1 {
 		st.o.Probes["message with 9..24 distinct classes in a history or probe"]++
@@ -741,6 +768,12 @@ func runC11(ch *Choices, cfg *RunCfg) (o *Outcome) {
 		o.Probes["caller's type map with classes registered through pointer types"]++
 	}
 	st := &c11State{o: o, ch: ch, g: NewGen(ch, c11Domain()), pair: pair, badKind: -1}
+	if ch.Intn(6, "twins") == 1 {
+		nm["TwinA"], nm["TwinB"] = twinWire, twinWire
+		tm[twinWire] = reflect.TypeOf(TwinA{})
+		st.twins = true
+		o.Probes["caller's maps with two Go types under one wire class name"]++
+	}
 	switch ch.Pick([]int{80, 12, 8}, "nm.variant") {
 	case 1:
 		// an incomplete name map: a caller that registered only some of its types (the encoder falls back
